@@ -350,7 +350,7 @@ def run(ctx):
         tid += 1
         d = len(g["s"])
         method = ("svd", "svd:eig", "svd", "eigh", "auto")[i % 5]
-        dt = U.DTYPES[(i // 5) % 4] if not (quick and method == "svd:eig") else U.DTYPES[(i // 5) % 2]
+        dt = U.DTYPES[(i // 5) % 4]
         ab = forms[(i // 3) % len(forms)]
         if method == "eigh":
             signs = [int(x) for x in rng.choice([1, -1], size=d)]
@@ -485,7 +485,7 @@ def run(ctx):
     ctx.extra.update({"records_table_replay": ntable, "records_trunc_grid": ngrid, "records_agree": len(agrees),
                       "records_history": len(hist), "records_svals": len(sv),
                       "paths": sorted({r["path"] for r in recs if r["ev"] == "split"}),
-                      "snap_tolerance_atol_rtol": {"double": [1e-5, 1e-7], "single": [1e-3, 1e-4]},
+                      "snap_tolerance_atol_rtol": {"double": [1e-5, 1e-7], "single": [1e-2, 1e-4]},
                       "relation_tolerance": {"double": 1e-6, "single": 2e-3}})
     ctx.clauses.update(["Returns", "FormAsRequested", "OneNewBond", "KeptIsMinimal", "NeverZeroNeverAboveCap", "ExactWhenUntruncated",
                         "BestApprox", "ErrorHonest", "ValuesWhereRequested", "RenormLaw", "DocIsometryTrue", "ClaimedIsometryTrue",
